@@ -19,6 +19,7 @@ import (
 	"github.com/NethermindEth/juno/db/memory"
 	"github.com/NethermindEth/juno/migration"
 	"github.com/NethermindEth/juno/migration/blocktransactions"
+	"github.com/NethermindEth/juno/migration/historyprunner"
 	"github.com/NethermindEth/juno/migration/state/headstate"
 	"github.com/NethermindEth/juno/migration/statedifflength"
 	"github.com/NethermindEth/juno/utils/log"
@@ -35,10 +36,28 @@ import (
 type fullSpec struct {
 	Chain     chainSpec `json:"chain"`
 	Contracts int       `json:"contracts"`
+	// Prunable: the database also holds what the history pruner migration needs (an L1 head two
+	// blocks below the tip and the deprecated per-block state history entries of every diff)
+	Prunable bool `json:"prunable,omitempty"`
+}
+
+const pruneRetained = 4 // historyprunner.New(retainedBlocks = 4, minAge = 0)
+
+// oldestKept is the first block the history pruner keeps (0 if it prunes nothing).
+func (fs fullSpec) oldestKept() uint64 {
+	if !fs.Prunable || fs.Chain.NoHeight || fs.Chain.height() < 2 {
+		return 0
+	}
+	pivot := fs.Chain.height() - 2
+	if pivot < pruneRetained {
+		return 0
+	}
+	return pivot - pruneRetained
 }
 
 type fullStart struct {
-	HeadState bool `json:"headState"` // optional migration "new-state" enabled
+	Prune     bool `json:"prune,omitempty"` // optional migration "prune-mode" enabled
+	HeadState bool `json:"headState"`       // optional migration "new-state" enabled
 	Inflate   bool `json:"inflate"`
 	CancelAt  int  `json:"cancelAt"` // cancel right after this store commit (0 = never)
 	CrashAt   int  `json:"crashAt"`  // the process dies right after this store commit (0 = never)
@@ -105,6 +124,32 @@ func (fs fullSpec) build() (*memory.Database, error) {
 			bc := &core.BlockCommitments{TransactionCommitment: feltOf(b), EventCommitment: feltOf(b + 1),
 				ReceiptCommitment: feltOf(b + 2), StateDiffCommitment: feltOf(b + 3)}
 			if err := core.WriteBlockCommitment(d, b, bc); err != nil {
+				return nil, err
+			}
+			if fs.Prunable {
+				old := feltOf(b * 100)
+				for addr, slots := range su.StateDiff.StorageDiffs {
+					for slot := range slots {
+						if err := core.WriteDeprecatedContractStorageHistory(d, &addr, &slot, old, b); err != nil {
+							return nil, err
+						}
+					}
+				}
+				for addr := range su.StateDiff.Nonces {
+					if err := core.WriteDeprecatedContractNonceHistory(d, &addr, old, b); err != nil {
+						return nil, err
+					}
+				}
+				for addr := range su.StateDiff.ReplacedClasses {
+					if err := core.WriteDeprecatedContractClassHashHistory(d, &addr, old, b); err != nil {
+						return nil, err
+					}
+				}
+			}
+		}
+		if fs.Prunable && fs.Chain.height() >= 2 {
+			l1 := fs.Chain.height() - 2
+			if err := core.WriteL1Head(d, &core.L1Head{BlockNumber: l1, BlockHash: blockHash(fs.Chain.Seed, l1), StateRoot: feltOf(l1 + 1)}); err != nil {
 				return nil, err
 			}
 		}
@@ -181,21 +226,26 @@ func (m *recMig) Migrate(ctx context.Context, database db.KeyValueStore, n *netw
 		o.errKind = "c"
 	default:
 		o.errKind = "o"
+		o.errText = err.Error()
 	}
 	fr.mu.Unlock()
 	return st, err
 }
 
-func fullRegistry(headState bool, wrap func(int, migration.Migration) migration.Migration) (*migration.Registry, string) {
-	// node/migration.go registerMigrations, without the history pruner (index 1 there)
+func fullRegistry(prune, headState bool, wrap func(int, migration.Migration) migration.Migration) (*migration.Registry, string) {
+	// node/migration.go registerMigrations
 	r := migration.NewRegistry().
 		With(wrap(0, &blocktransactions.Migrator{})).
-		WithOptional(wrap(1, &headstate.Migrator{}), headState, "new-state").
-		With(wrap(2, &statedifflength.Migrator{}))
-	if headState {
-		return r, "mem"
+		WithOptional(wrap(1, historyprunner.New(pruneRetained, 0)), prune, "prune-mode").
+		WithOptional(wrap(2, &headstate.Migrator{}), headState, "new-state").
+		With(wrap(3, &statedifflength.Migrator{}))
+	opt := func(b bool) string {
+		if b {
+			return "e"
+		}
+		return "d"
 	}
-	return r, "mdm"
+	return r, "m" + opt(prune) + opt(headState) + "m"
 }
 
 type fullOutcome struct {
@@ -236,7 +286,7 @@ func realFullStart(d *memory.Database, height uint64, sp fullStart) fullOutcome 
 			fr.image = fs.image()
 		}
 	}
-	reg, regS := fullRegistry(sp.HeadState, func(i int, m migration.Migration) migration.Migration {
+	reg, regS := fullRegistry(sp.Prune, sp.HeadState, func(i int, m migration.Migration) migration.Migration {
 		return &recMig{inner: m, idx: i, fr: fr}
 	})
 	runner, err := migration.NewRunner(reg, store, &networks.Sepolia, log.NewNopZapLogger())
@@ -282,7 +332,7 @@ func realFullStart(d *memory.Database, height uint64, sp fullStart) fullOutcome 
 }
 
 // checkFullFinal: the property on a database whose upgrade has completed.
-func (h *harness) checkFullFinal(hist fullHistory, final *memory.Database, headState bool, btImgs []string) bool {
+func (h *harness) checkFullFinal(hist fullHistory, final *memory.Database, prune, headState bool, btImgs []string) bool {
 	fs := hist.Spec
 	c := fs.Chain
 	ok := true
@@ -294,11 +344,23 @@ func (h *harness) checkFullFinal(hist fullHistory, final *memory.Database, headS
 			imageSpec.Layout = l
 		}
 	}
-	if !checkFinal(h.res, c, imageSpec, final) {
+	from := uint64(0)
+	if prune {
+		from = fs.oldestKept()
+	}
+	if !checkFinalFrom(h.res, c, imageSpec, final, from) {
 		ok = false
 	}
+	if prune && from > 0 {
+		// what the pruner is meant to remove must be gone, what it keeps is checked above/below
+		if _, err := core.GetTransactionsByBlockNumber(final, from-1); err == nil {
+			ok = false
+			h.res.Violate(lib.Violation{Sig: "historyprunner-block-below-cutoff-not-pruned",
+				What: fmt.Sprintf("block %d is below the cutoff %d and still has its transactions", from-1, from), Replay: hist})
+		}
+	}
 	if !c.NoHeight {
-		for b := uint64(0); b <= c.height(); b++ {
+		for b := from; b <= c.height(); b++ {
 			bc, err := core.GetBlockCommitmentByBlockNum(final, b)
 			want := fs.stateDiff(b).Length()
 			if err != nil || bc.StateDiffLength != want || !bc.TransactionCommitment.Equal(feltOf(b)) {
@@ -360,28 +422,28 @@ func (h *harness) fullHistoryCase(hist fullHistory, family string) {
 		res.Mismatch(lib.Mismatch{Sig: "disk-line-rejected", Model: a})
 	}
 	cur := d0
-	headState := false
+	headState, prune := false, false
 	var btImgs []string
 	starts := append([]fullStart{}, hist.Starts...)
 	for si := 0; si < len(starts)+3; si++ {
 		var sp fullStart
 		if si < len(starts) {
 			sp = starts[si]
-			if headState && !sp.HeadState {
+			if (headState && !sp.HeadState) || (prune && !sp.Prune) {
 				// an opt-out attempt: must be refused, then go on with the migration enabled
 				o := realFullStart(cur, height, sp)
 				res.Case(fmt.Sprintf("%s|%d|optout", family, si), false)
 				res.Hit("full-start:optout-attempt")
 				if o.open == "ok" {
-					res.Violate(lib.Violation{Sig: "newrunner-accepts-downgrade-or-optout", What: "new-state was enabled before, now disabled: accepted", Replay: hist})
+					res.Violate(lib.Violation{Sig: "newrunner-accepts-downgrade-or-optout", What: "an optional migration was enabled before, now disabled: accepted", Replay: hist})
 				}
 				h.compareFullStart(hist, si, o)
-				sp.HeadState = true
+				sp.HeadState, sp.Prune = sp.HeadState || headState, sp.Prune || prune
 			}
 		} else {
-			sp = fullStart{HeadState: headState} // undisturbed
+			sp = fullStart{HeadState: headState, Prune: prune} // undisturbed
 		}
-		headState = headState || sp.HeadState
+		headState, prune = headState || sp.HeadState, prune || sp.Prune
 		o := realFullStart(cur, height, sp)
 		res.Case(fmt.Sprintf("%s|%d|%+v|%s|%d", family, si, sp, hist.Spec.Chain.Layout, hist.Spec.Chain.Seed), o.commits > 0)
 		if o.hang {
@@ -404,7 +466,7 @@ func (h *harness) fullHistoryCase(hist fullHistory, family string) {
 			msg := "an undisturbed start returns an error"
 			for i, ob := range o.obs {
 				if ob.errKind == "o" {
-					msg += fmt.Sprintf(" (migration %d failed)", i)
+					msg += fmt.Sprintf(" (migration %d failed: %s)", i, ob.errText)
 				}
 			}
 			res.Violate(lib.Violation{Sig: "upgrade-fails-after-interruption", What: msg, Replay: hist})
@@ -412,14 +474,14 @@ func (h *harness) fullHistoryCase(hist fullHistory, family string) {
 		}
 		if !o.crashed && o.result == "ok" {
 			// upgrade complete: property + same final database as the undisturbed upgrade
-			good := h.checkFullFinal(hist, cur, headState, btImgs)
+			good := h.checkFullFinal(hist, cur, prune, headState, btImgs)
 			md, err := migration.GetSchemaMetadata(cur)
-			_, tgt := fullRegistry(headState, func(_ int, m migration.Migration) migration.Migration { return m })
+			_, tgt := fullRegistry(prune, headState, func(_ int, m migration.Migration) migration.Migration { return m })
 			t, _ := targetOf(tgt)
 			if err != nil || uint64(md.CurrentVersion) != t || uint64(md.LastTargetVersion) != t {
 				res.Violate(lib.Violation{Sig: "run-ok-but-target-not-applied", What: fmt.Sprintf("metadata %+v target %b", md, t), Replay: hist})
 			}
-			tw := realFullStart(d0, height, fullStart{HeadState: headState})
+			tw := realFullStart(d0, height, fullStart{HeadState: headState, Prune: prune})
 			if good && tw.result == "ok" {
 				if same, why := sameDump(dump(cur), dump(tw.after)); !same {
 					res.Violate(lib.Violation{Sig: "upgrade-final-db-differs-from-undisturbed-upgrade", What: why, Replay: hist})
@@ -521,6 +583,21 @@ func (h *harness) fullAll() {
 		for k := 1; k <= tw.commits; k += step {
 			h.fullHistoryCase(fullHistory{Spec: fixed, Starts: []fullStart{{HeadState: true, Inflate: true, CrashAt: k}}}, "fixed-crash")
 			h.fullHistoryCase(fullHistory{Spec: fixed, Starts: []fullStart{{HeadState: true, Inflate: true, CancelAt: k}}}, "fixed-cancel")
+		}
+	}
+	// the same with the history pruner enabled (dense chain: every block has transactions)
+	pr := fullSpec{Chain: chainSpec{Seed: 9, Counts: repeatInt(2, 24), Layout: strings.Repeat("o", 24)}, Contracts: 3, Prunable: true}
+	if d1, err := pr.build(); err == nil {
+		tw := realFullStart(d1, pr.Chain.height(), fullStart{Prune: true, HeadState: true, Inflate: true})
+		h.res.HitN("full-prune-commits", tw.commits)
+		h.fullHistoryCase(fullHistory{Spec: pr, Starts: []fullStart{{Prune: true, HeadState: true}}}, "prune-undisturbed")
+		step := 1
+		if h.f.Tier == "quick" {
+			step = 3
+		}
+		for k := 1; k <= tw.commits; k += step {
+			h.fullHistoryCase(fullHistory{Spec: pr, Starts: []fullStart{{Prune: true, HeadState: true, Inflate: true, CrashAt: k}}}, "prune-crash")
+			h.fullHistoryCase(fullHistory{Spec: pr, Starts: []fullStart{{Prune: true, HeadState: true, Inflate: true, CancelAt: k}}}, "prune-cancel")
 		}
 	}
 	n := h.f.Scale(40, 800)
